@@ -76,3 +76,29 @@ Proof.
   split; [vm_compute; split; reflexivity|]. split; [vm_compute; split; discriminate|].
   split; [vm_compute; discriminate|]. split; [vm_compute; reflexivity|]. vm_compute. reflexivity.
 Qed.
+
+(* direction of the move: unchanged exactly at the gas target floor(75% of the gas limit), never up below it, strictly up above it *)
+Lemma basefee_direction_lemma galactica pnum gl gu pb :
+  0 <= galactica -> galactica < pnum + 1 < two32 ->
+  min_gas_limit <= gl <= max_nowrap_gas_limit -> 0 <= gu <= gl -> initial_base_fee <= pb ->
+  exists next, calc_base_fee galactica pnum gl gu pb = BfFee next /\
+    (gu = gl * 75 / 100 -> next = pb) /\ (gu < gl * 75 / 100 -> next <= pb) /\ (gu > gl * 75 / 100 -> pb < next).
+Proof.
+  intros Hg0 Hn Hgl Hgu Hpb. unfold calc_base_fee.
+  rewrite Z.mod_small by (unfold two32 in *; lia).
+  destruct (pnum + 1 <? galactica) eqn:E1; [apply Z.ltb_lt in E1; lia|].
+  destruct (pnum + 1 =? galactica) eqn:E2; [apply Z.eqb_eq in E2; lia|].
+  rewrite gas_target_nowrap by (unfold min_gas_limit in *; lia).
+  unfold min_gas_limit, initial_base_fee, base_fee_change_denominator in *.
+  destruct (target_bounds gl ltac:(lia)) as [Ht [Hd Hle]].
+  set (t := gl * 75 / 100) in *.
+  destruct (gu =? t) eqn:E3.
+  { apply Z.eqb_eq in E3. exists pb. split; [reflexivity|]. repeat split; lia. }
+  destruct (t =? 0) eqn:E4; [apply Z.eqb_eq in E4; lia|].
+  apply Z.eqb_neq in E3.
+  destruct (gu >? t) eqn:E5.
+  - apply Z.gtb_lt in E5. eexists. split; [reflexivity|]. repeat split; lia.
+  - assert (gu < t) by (pose proof (Zgt_cases gu t) as G; rewrite E5 in G; lia).
+    pose proof (scaled_le pb (t - gu) t ltac:(lia) ltac:(lia) Ht) as [Hlo Hhi].
+    eexists. split; [reflexivity|]. repeat split; lia.
+Qed.
